@@ -123,8 +123,7 @@ class Exec:
 
     def oblige(self, name, goal, tags, line=None, kind="ensures"):
         goal = tobool(goal)
-        g = simplify(goal) if not z3.is_quantifier(goal) else goal
-        o = Obl("%s#%s" % (self.qual, name), g, len(self.p.pc), tags, line, kind)
+        o = Obl("%s#%s" % (self.qual, name), goal, len(self.p.pc), tags, line, kind)
         self.p.obls.append(o)
         return o
 
